@@ -171,10 +171,10 @@ type c08GridDims struct {
 
 func c08Dims() c08GridDims {
 	if vreport.Thorough() {
-		return c08GridDims{maxLen: 26, undef: []byte{0, 0x02, 0x10, 0x40, 0x80, 0xd2},
+		return c08GridDims{maxLen: 20, undef: []byte{0, 0x02, 0x40, 0xd2},
 			prio: [][2]uint32{{0, 0}, {1, 1}, {0x7fffffff, 16}, {0x80000000, 255}, {0x80000001, 0}, {0xffffffff, 255}},
 			u32s: []uint32{0, 1, 0x7fffffff, 0x80000000, 0x80000001, 0xffffffff},
-			sids: []uint32{0, 1, 0x7fffffff, 0x80000000, 0x80000001}, nfill: 3, sweepTo: 16, allPads: true}
+			sids: []uint32{0, 1, 0x7fffffff, 0x80000001}, nfill: 3, sweepTo: 8, allPads: true}
 	}
 	return c08GridDims{maxLen: 14, undef: []byte{0, 0xd2},
 		prio: [][2]uint32{{0, 0}, {0x80000001, 255}, {0xffffffff, 16}},
